@@ -3,7 +3,15 @@ package rng
 
 type R struct{ s uint64 }
 
-func New(seed uint64) *R { return &R{s: seed*0x9E3779B97F4A7C15 + 0x1234567} }
+// New scrambles the seed first, so that consecutive seeds give unrelated streams
+// (with a plain multiple of the increment, seed n+1 would replay seed n shifted by one draw).
+func New(seed uint64) *R {
+	z := seed + 0x1234567
+	z = (z ^ (z >> 30)) * 0xBF58476D1CE4E5B9
+	z = (z ^ (z >> 27)) * 0x94D049BB133111EB
+	z ^= z >> 31
+	return &R{s: z ^ 0xD6E8FEB86659FD93}
+}
 
 func (r *R) U64() uint64 {
 	r.s += 0x9E3779B97F4A7C15
